@@ -5,6 +5,8 @@ import (
 	"fmt"
 	"net"
 	"strconv"
+	"strings"
+	"sync"
 	"time"
 
 	exserver "github.com/cybergarage/go-redis/examples/go-redisd/server"
@@ -13,6 +15,117 @@ import (
 
 func init() {
 	opRunners["stallw"] = runStallW
+	opRunners["massdisc"] = runMassDisc
+	opRunners["stallr"] = runStallR
+}
+
+// case: "massdisc <clients> <rounds>": <clients> connections are opened, each sends one PING, then all of them are
+// closed at the same instant; a witness connection must be served afterwards and the registry must be empty.
+func runMassDisc(toks []string) Result {
+	n, _ := strconv.Atoi(toks[1])
+	rounds, _ := strconv.Atoi(toks[2])
+	srv := redis.NewServer()
+	srv.SetCommandHandler(newSafeHandler())
+	var swg sync.WaitGroup
+	open := func() net.Conn {
+		cl, sv := net.Pipe()
+		swg.Add(1)
+		go func() {
+			defer swg.Done()
+			defer func() { recover() }()
+			srv.VerifServeConn(sv, nil)
+		}()
+		return cl
+	}
+	for round := 0; round < rounds; round++ {
+		conns := make([]net.Conn, n)
+		for i := range conns {
+			conns[i] = open()
+		}
+		var wg sync.WaitGroup
+		gate := make(chan struct{})
+		for _, c := range conns {
+			wg.Add(1)
+			go func(c net.Conn) {
+				defer wg.Done()
+				c.SetDeadline(time.Now().Add(3 * time.Second))
+				c.Write(reqS("PING"))
+				readReply(bufio.NewReader(c))
+				<-gate
+				c.Close()
+			}(c)
+		}
+		time.Sleep(5 * time.Millisecond)
+		close(gate)
+		wg.Wait()
+	}
+	done := make(chan struct{})
+	go func() { swg.Wait(); close(done) }()
+	select {
+	case <-done:
+	case <-time.After(5 * time.Second):
+		return Result{Obs: "goroutines-left", Oracle: "fail:connection goroutines did not end after their clients went away", Tags: []string{"nt", "mass-disconnect"}}
+	}
+	w := open()
+	defer w.Close()
+	w.SetDeadline(time.Now().Add(2 * time.Second))
+	w.Write(reqS("PING"))
+	rep, err := readReply(bufio.NewReader(w))
+	if err != nil || string(rep) != "+PONG\r\n" {
+		return Result{Obs: "witness-not-served", Oracle: "fail:a witness connection was not served after a mass disconnect", Tags: []string{"nt", "mass-disconnect"}}
+	}
+	if k := len(srv.Conns()); k != 1 {
+		return Result{Obs: fmt.Sprintf("registry=%d", k), Oracle: fmt.Sprintf("fail:%d connections registered after all but one client went away", k), Tags: []string{"nt", "mass-disconnect"}}
+	}
+	return Result{Obs: "witness-served", Oracle: "ok", Tags: []string{"nt", "mass-disconnect"}}
+}
+
+// case: "stallr <payload> <prefix> <pause ms>": the client pipelines ECHO <payload bytes>, PING, ECHO x over an
+// unbuffered pipe, reads <prefix> bytes of the first reply, pauses, then reads everything.
+func runStallR(toks []string) Result {
+	size, _ := strconv.Atoi(toks[1])
+	prefix, _ := strconv.Atoi(toks[2])
+	pause, _ := strconv.Atoi(toks[3])
+	srv := redis.NewServer()
+	srv.SetCommandHandler(newSafeHandler())
+	cl, sv := net.Pipe()
+	go func() {
+		defer func() { recover() }()
+		srv.VerifServeConn(sv, nil)
+	}()
+	defer cl.Close()
+	payload := strings.Repeat("p", size)
+	var reqs []byte
+	reqs = append(reqs, reqS("ECHO", payload)...)
+	reqs = append(reqs, reqS("PING")...)
+	reqs = append(reqs, reqS("ECHO", "x")...)
+	go cl.Write(reqs)
+	want := fmt.Sprintf("$%d\r\n%s\r\n+PONG\r\n$1\r\nx\r\n", size, payload)
+	var got []byte
+	buf := make([]byte, 4096)
+	cl.SetReadDeadline(time.Now().Add(3 * time.Second))
+	for len(got) < prefix {
+		n, err := cl.Read(buf[:prefix-len(got)])
+		got = append(got, buf[:n]...)
+		if err != nil {
+			break
+		}
+	}
+	time.Sleep(time.Duration(pause) * time.Millisecond)
+	cl.SetReadDeadline(time.Now().Add(3 * time.Second))
+	for len(got) < len(want) {
+		n, err := cl.Read(buf)
+		got = append(got, buf[:n]...)
+		if err != nil {
+			break
+		}
+	}
+	tags := []string{"nt", "stalled-reader"}
+	if string(got) != want {
+		_, ok := refFrames(got)
+		return Result{Obs: fmt.Sprintf("got %d bytes, frames ok=%v", len(got), ok), Oracle: fmt.Sprintf("fail:a reader that paused %d ms inside a %d-byte reply received %d bytes that are not the three complete replies (well-formed=%v)", pause, size, len(got), ok), Tags: tags}
+	}
+	return Result{Obs: "replies-complete", Oracle: "ok", Tags: tags}
 }
 
 // case: "stallw <store> <stalled> <requests>": <stalled> clients send <requests> pipelined requests each and never
